@@ -145,7 +145,7 @@ def dcontent(d):
 
 STR_BARE = ["abc", "A_b1", "x.y", "a-b", "path/to/x", "1.2.3", "1.0-beta", "$VAR", "$1:name", "§X", "§1",
             "A→B", "A⊕B⧺C", "A⇌B", "A∨B", "a@b", "NAME<q>", "NAME<a,b>", "A:B", "60%", "é", "😀x", "A→§B"]
-STR_QUOTED = ["hello world", "", "true", "null", "vs", "42", "-1.5", "1e3", 'a"b', "a\\b", "l1\nl2", "t\tx", " lead", "trail ",
+STR_QUOTED = ["hello world", 'see "List<int>"', 'a "q" b', "", "true", "null", "vs", "42", "-1.5", "1e3", 'a"b', "a\\b", "l1\nl2", "t\tx", " lead", "trail ",
               "a::b", "[x]", "a,b", "// no", "#tag", "===END===", "---", "a → b", "->", "§", "x:", "K::v", "a<b", "`", "```", "é é", "a\rb", "a\x0cb", "a\x0bb", "a\x85b", "a\u2028b", "a\u00a0b", "\\n", "\\\\", "a\\"]
 NUMS = [I(0), I(-7), I(42), F(3.14), F(-0.5), F(1e10), F(1e22), F(1e-7)]
 SCALARS = ([S(t, "bare") for t in STR_BARE] + [S(t, "quoted") for t in STR_QUOTED] + NUMS + [Bo(True), Bo(False), NULL])
@@ -163,7 +163,7 @@ ZONES = [Zone("x = 1"), Zone("x = 1", "py"), Zone(""), Zone("a\n  b\n\nc", None,
 POOL = SCALARS + LISTS + HOLOS + ZONES
 SIMPLE_POOL = [S("abc"), S("hello world"), I(42), F(-0.5), Bo(True), NULL, Lst(S("a"), S("b")), Lst(S("a"), S("b"), S("c")),
                Lst(Map(("k", S("v")))), S("A→B"), S("1.2.3"), S("$VAR"), S("§X"), S("NAME<q>"), Holo('["x"∧REQ→§SELF]'), Zone("x = 1"),
-               S(""), S("true"), Lst()]
+               S(""), S("true"), Lst(), S('see "List<int>"')]
 
 
 def has_map(v) -> bool:
@@ -339,6 +339,7 @@ def decoration_sweep() -> list[tuple[str, dict]]:
         "meta": [("TYPE", S("T")), ("VERSION", S("1.0", "quoted"))],
         "meta_nested": [("TYPE", S("T")), ("N", ("metamap", [("A", I(1)), ("B", Lst(S("x"), S("y")))])), ("Z", S("z"))],
         "meta_list": [("TYPE", S("T")), ("TAGS", Lst(S("a"), S("b"), S("c")))],
+        "meta_nested_long": [("TYPE", S("T")), ("N", ("metamap", [("TAGS", Lst(S("a"), S("b"), S("c"), S("d"))), ("M", Lst(Map(("k", S("v"))), S("x")))]))],
     }
     i = 0
     for sentinel in (None, "5.1.0"):
@@ -367,6 +368,36 @@ def _decorate(node, lead, trail):
     if node[0] == "S":
         return Sec(node[1], node[2], node[4], node[3], lead)
     return node
+
+
+def frontmatter_docs() -> list[tuple[str, dict]]:
+    """the YAML frontmatter is a verbatim container: shapes whose bytes a trim/strip/splitlines would change"""
+    body = [A("K", S("v")), B("B1", [A("L", S("w"))])]
+    meta = [("TYPE", S("T"))]
+    fms = {"indented": "  name: x\n  description: y", "indented-4": "    a: 1\n    b:\n      - c", "blank-first": "\nname: x", "blank-last": "name: x\n",
+           "trailing-space": "name: x  \ndescription: y ", "tab": "name:\tx", "colon-paren": "name: x (y)\ndescription: \"q: z\"",
+           "line-boundaries": "a: x\u2028y\nb: p\x0cq\x85r", "only-comment": "# nothing", "unicode-nfd": "name: e\u0301"}
+    out = []
+    for k, fm in fms.items():
+        out.append((f"FMD:{k}", Doc(body, meta=meta, separator=True, frontmatter=fm)))
+        out.append((f"FMD:{k}:sentinel", Doc(body, meta=meta, separator=True, frontmatter=fm, sentinel="5.1.0")))
+    return out
+
+
+def target_docs() -> list[tuple[str, dict]]:
+    """block inheritance targets and section annotations in every position"""
+    v, q = S("v"), S("q")
+    meta = [("TYPE", S("T")), ("VERSION", S("1.0", "quoted"))]
+    out = [
+        ("TG:top", Doc([B("B1", [A("K", v)], target="T"), A("Q", q)])),
+        ("TG:nested", Doc([B("B1", [B("B2", [A("K", v)], target="U"), A("R", q)], target="T")])),
+        ("TG:in-section", Doc([Sec("1", "S", [B("B1", [A("K", v)], target="T")]), A("Q", q)])),
+        ("TG:empty-block", Doc([B("B1", [], target="T"), A("Q", q)])),
+        ("TG:two", Doc([B("B1", [A("K", v)], target="T_2"), B("B2", [A("L", v)], target="T_2")], meta=meta, separator=True)),
+        ("TG:annotation", Doc([Sec("1", "S", [A("K", v)], annotation="a,b"), B("B1", [A("K", v)], target="X1")], meta=meta, separator=True)),
+        ("TG:lead-comment", Doc([B("B1", [A("K", v)], target="T", lead=("c",)), A("Q", q)])),
+    ]
+    return out
 
 
 # ----------------------------------------------------------------------------- comment-placement sweep
